@@ -71,20 +71,21 @@ def record(ctx: Ctx, templates: list, per_template: int, iters: int = 4, cache=N
                 from .core import relieve_jit
                 relieve_jit()
             for tr in dof.record_offpolicy(cache, cfg, t["algo"], iters, seed):
-                cut_after_8_dones(tr)
+                cut_after_8_dones(tr, tb.exact_dones_limit(cfg))
                 traces.append(tr)
                 cases.append({"cfg": cfg, "algo": t["algo"], "iters": iters, "seed": seed, "env": tr["meta"]["env"]})
     return traces, cases
 
 
-def cut_after_8_dones(tr):
-    """the EMA of the logging statistics is exact (SD = 4^8) for at most 8 episode ends: drop later events"""
+def cut_after_8_dones(tr, limit: int = 8):
+    """the EMA of the logging statistics is exact (SD = 4^8) for at most 8 episode ends (fewer with large rewards,
+    tables.exact_dones_limit): drop later events"""
     n, keep = 0, []
     last_snap = 0
     for i, e in enumerate(tr["events"]):
         if e["ev"] == "row" and e["done"]:
             n += 1
-        if n > 8:
+        if n > limit:
             break
         keep.append(e)
         if e["ev"] == "snap":
@@ -155,6 +156,8 @@ def replay(ctx: Ctx, pid: str, case: dict, only=None) -> Report:
     rep = Report()
     trs = dof.record_offpolicy(tb.EnvCache(), case["cfg"], case["algo"], case["iters"], case["seed"])
     trs = [t for t in trs if t["meta"]["env"] == case["env"]]
+    for t in trs:
+        cut_after_8_dones(t, tb.exact_dones_limit(case["cfg"]))
     v = tracecheck.validate(ctx, TRACE_SPEC, trs, "replay")
     rep.traces = len(trs)
     rep.violations += violations_from(pid, v, trs, [case] * len(trs), only)
